@@ -685,7 +685,7 @@ func main() {
 		f := &facts{vals: map[string]bool{}}
 		for _, n := range []string{"assignCopies", "multiTemps", "multiDefineTemps", "multiDefineRedeclAssigns", "multiDefineRedeclCopies", "defineFresh",
 			"callCopiesArgs", "rangeSnapshotsArray", "closureClonesFrame", "callShortcut", "litShortcut", "shortcutGuardsSingle",
-			"structLitSetsSlot", "structLitAssignSets", "arrayLitSets", "arrayLitFresh", "arrayLitAssignInPlace", "lookup2OnlyIfValid",
+			"structLitSetsSlot", "structLitAssignSets", "structLitInTemp", "arrayLitSets", "arrayLitFresh", "arrayLitAssignInPlace", "lookup2OnlyIfValid",
 			"lookup2DefineFresh", "lookup2RedeclInPlace", "appendArgsAreSlots", "derefNilPanics", "recvAssignsValue", "assertDefineFresh",
 			"assertZeroOnFail"} {
 			f.set(n, false)
@@ -757,6 +757,42 @@ func main() {
 				return true
 			})
 			f.set("structLitAssignSets", asg)
+			// the struct is built in a temporary before the destination is looked at: the exec closure starts with
+			// `a := reflect.New(rt).Elem()`, fills the fields of `a`, and only then takes `d := value(f)`; `a` is never
+			// assigned again
+			inTemp := false
+			var ex *ast.FuncLit
+			for _, st := range fd.Body.List {
+				if fl := execLit(st); fl != nil {
+					ex = fl
+				}
+			}
+			if ex != nil && len(ex.Body.List) >= 3 && text(ex.Body.List[0]) == "a := reflect.New(rt).Elem()" {
+				loopAt, destAt, reassigned := -1, -1, false
+				for i, st := range ex.Body.List {
+					if rs, ok := st.(*ast.RangeStmt); ok && text(rs.X) == "values" && contains(rs.Body, "a.Field(i).Set(v(f))") {
+						loopAt = i
+					}
+					if text(st) == "d := value(f)" {
+						destAt = i
+					}
+				}
+				ast.Inspect(ex, func(x ast.Node) bool {
+					if a, ok := x.(*ast.AssignStmt); ok && a.Tok == token.ASSIGN {
+						for _, l := range a.Lhs {
+							if text(l) == "a" {
+								reassigned = true
+							}
+						}
+					}
+					return true
+				})
+				inTemp = loopAt == 1 && destAt > loopAt && !reassigned
+			}
+			f.set("structLitInTemp", inTemp)
+			if !inTemp {
+				f.miss("doComposite: exec closure `a := reflect.New(rt).Elem()`; fields of a; then `d := value(f)`")
+			}
 		} else {
 			f.miss("func doComposite")
 		}
